@@ -927,6 +927,7 @@ class BacktestRun:
             config.simulated_strategy_isolation = cfg.get("isolation", True)
             config.simulation_available_prices = cfg.get("available_prices", False)
             config.raise_errors = cfg.get("raise_errors", False)
+            config.async_place_orders = bool(cfg.get("async"))  # no effect on simulated execution (the package carries the flag)
             config.customer_strategy_ref = "simhost"
             config.hostname = "simhost"
             self._build()
